@@ -28,15 +28,17 @@ for d in sorted(os.listdir(os.path.join(HERE, "seeded"))):
         out["tests_with_patch"] = m[-1] if m else t.stdout[-200:]
         r = subprocess.run(["/venv/bin/python", os.path.join(sd, "demo.py"), wt], capture_output=True, text=True, timeout=900)
         out["demo_with_patch"] = "exit %d" % r.returncode
-        env = dict(os.environ, SKEPTICOIN_REPO=wt)
-        c = subprocess.run([os.path.join(HERE, "check"), prop, "quick"], cwd=HERE, capture_output=True, text=True, timeout=3000, env=env)
-        lines = [l for l in c.stdout.splitlines() if l.startswith("VIOLATION") or "ok —" in l]
-        out["check_with_patch"] = re.sub(r"replay=\S+", "replay=<file>", lines[-1]) if lines else "exit %d" % c.returncode
+        out["check_with_patch"] = []
+        for seed in (0, 1, 2):
+            env = dict(os.environ, SKEPTICOIN_REPO=wt, VERIF_SEED=str(seed))
+            c = subprocess.run([os.path.join(HERE, "check"), prop, "quick"], cwd=HERE, capture_output=True, text=True, timeout=3000, env=env)
+            lines = [l for l in c.stdout.splitlines() if l.startswith("VIOLATION") or "ok —" in l]
+            out["check_with_patch"].append("seed %d: " % seed + (re.sub(r"replay=\S+", "replay=<file>", lines[-1]) if lines else "exit %d" % c.returncode))
     finally:
         subprocess.run(["git", "-C", "/repo", "worktree", "remove", "--force", wt])
         shutil.rmtree(wt, ignore_errors=True)
     meta["confirmed"] = out
     meta["what_was_run"] = ("scratch worktree of /repo at HEAD: demo.py (must exit 0), git apply patch.diff, the 64-test suite, "
-                            "demo.py (must exit 1), ./check %s quick with SKEPTICOIN_REPO pointing at the patched worktree" % prop)
+                            "demo.py (must exit 1), ./check %s quick with seeds 0, 1, 2 and SKEPTICOIN_REPO pointing at the patched worktree" % prop)
     json.dump(meta, open(os.path.join(sd, "meta.json"), "w"), indent=1)
     print(d, out, flush=True)
